@@ -467,6 +467,18 @@ class Describer:
                         d["null"] = {"wire": other[1].hex(), "then": "none"}
                         continue
                 return opaque("None returned under an unrecognised condition")
+            if size == 1 and isinstance(val, tuple) and len(val) == 2 and val[0] == "not" and isinstance(val[1], tuple) and len(val[1]) == 3 \
+                    and val[1][0] in ("eq", "ne"):
+                val = ({"eq": "ne", "ne": "eq"}[val[1][0]], val[1][1], val[1][2])
+            if size == 1 and isinstance(val, tuple) and len(val) == 3 and val[0] in ("eq", "ne") and w in (val[1], val[2]):
+                other = val[2] if val[1] == w else val[1]
+                if other[0] == "k" and isinstance(other[1], bytes) and len(other[1]) == 1:
+                    # a one-byte boolean decided by comparing the byte: `!= b"\x00"` is exactly struct's "?" (every non-zero byte is true);
+                    # any other comparison is a different function of the byte
+                    if val[0] == "ne" and other[1] == b"\x00":
+                        return {"k": "scalar", "prefix": {"k": "fixed", "fmt": ">?"}, "null": None, "conv": HOLE, "guards": [], "raises": d["raises"]}
+                    return {"k": "scalar", "prefix": {"k": "fixed", "fmt": ">?"}, "null": None,
+                            "conv": (val[0], ("byte", HOLE), ("k", other[1][0])), "guards": [], "raises": d["raises"]}
             d["conv"] = subst(val, w, HOLE)
         return d
 
